@@ -217,6 +217,21 @@ func (e *Env) eval(x Expr) TV {
 		return e.evalSel(x)
 	case EIndex:
 		return e.evalIndex(x)
+	case ESlice:
+		base := e.eval(x.X)
+		sv, ok := base.V.(SliceVal)
+		if !ok {
+			efail("slice expression on %s", base.T)
+		}
+		lo := Zero
+		if x.Lo != nil {
+			lo = e.asInt(e.eval(x.Lo))
+		}
+		hi := sv.Len
+		if x.Hi != nil {
+			hi = e.asInt(e.eval(x.Hi))
+		}
+		return TV{SliceVal{Arr: sv.Arr, Off: Add(sv.Off, lo), Len: Sub(hi, lo), Cap: Sub(sv.Cap, lo), Elem: sv.Elem}, base.T}
 	case ECall:
 		return e.evalCall(x)
 	case EAssert:
@@ -225,6 +240,9 @@ func (e *Env) eval(x Expr) TV {
 			efail("type assertion on non-interface %s", v.T)
 		}
 		ty := e.resolveType(x.T)
+		if ty.K == KStruct {
+			return TV{vc.unboxStruct(e.heap, e.asTerm(v), ty), ty}
+		}
 		return TV{vc.unbox(e.asTerm(v), ty), ty}
 	case ETypeIs:
 		v := e.eval(x.X)
@@ -289,6 +307,11 @@ func (e *Env) asSet(tv TV) SetVal {
 	case SliceVal:
 		vc := e.vc
 		h := e.heap
+		if v.Elem.single() && v.Elem.SortOf() == SInt {
+			a := Select(vc.hget(h, vc.elemsComp(v.Elem)), v.Arr)
+			vc.inseqAxioms(a, v.Off, v.Len)
+			return SetVal{Mem: func(x Term) Term { return vc.inseq(a, v.Off, v.Len, x) }, Elem: v.Elem}
+		}
 		return SetVal{Mem: func(x Term) Term {
 			i := Term{fmt.Sprintf("i!%d", e.depth), SInt}
 			el := vc.sliceElemTerm(h, v, i)
@@ -460,7 +483,7 @@ func (e *Env) evalSel(x ESel) TV {
 		efail("no field or ghost field %s in %s", x.Name, structT)
 	}
 	_ = isGhost
-	floc := Loc{loc.Prefix + "." + x.Name, loc.Idx}
+	floc := Loc{vc.fieldComp(loc.Prefix, structT, x.Name), loc.Idx}
 	return TV{vc.readLoc(e.heap, floc, ft), ft}
 }
 
@@ -570,6 +593,33 @@ func (e *Env) evalCall(x ECall) TV {
 	case "any":
 		v := e.eval(x.Args[0])
 		return TV{vc.box(e.asTerm(v), v.T), FromGo(types.Universe.Lookup("any").Type())}
+	case "implements":
+		// implements(x, InterfaceType-as-identifier)
+		v := e.eval(x.Args[0])
+		id, ok := x.Args[1].(EIdent)
+		if !ok {
+			efail("implements(x, InterfaceName)")
+		}
+		it := e.resolveType(&TypeExpr{Kind: "name", Name: id.Name})
+		return TV{vc.implementsTerm(e.asTerm(v), it), tBool}
+	case "card":
+		v := e.eval(x.Args[0])
+		sv := e.asSet(v)
+		if sv.Arr == nil {
+			efail("card of a set that is not an array term")
+		}
+		return TV{vc.card(*sv.Arr), tInt}
+	case "setview":
+		c := e.asInt(e.eval(x.Args[0]))
+		vc.registerComp(setViewComp, compInfo{Sort: ArrSort(SInt, ArrSort(SInt, SBool)), Depth: 1, Ghost: true})
+		return TV{Select(vc.hget(e.heap, setViewComp), c), setOf(SType{K: KInt, Unsigned: true})}
+	case "viewof":
+		v := e.asInt(e.eval(x.Args[0]))
+		vc.registerComp(setViewComp, compInfo{Sort: ArrSort(SInt, ArrSort(SInt, SBool)), Depth: 1, Ghost: true})
+		return TV{Select(vc.hget(e.heap, setViewComp), vc.cellOf(v)), setOf(SType{K: KInt, Unsigned: true})}
+	case "cellof":
+		v := e.eval(x.Args[0])
+		return TV{vc.cellOf(e.asTerm(v)), SType{K: KInt}}
 	case "tagof":
 		v := e.eval(x.Args[0])
 		return TV{vc.tagOf(e.asTerm(v)), tInt}
@@ -923,4 +973,90 @@ func (e *Env) conjuncts(x Expr, tag string, depth int) []conjunct {
 		}
 	}
 	return []conjunct{{e, x, tag}}
+}
+
+
+// fieldComp names the component of field name of a struct located at prefix. Ghost fields may be
+// declared with an explicit shared component ("as <comp>").
+func (vc *VC) fieldComp(prefix string, structT SType, name string) string {
+	if structT.Go != nil {
+		if a, ok := vc.w.ghostAlias[typeKey(structT.Go)+"."+name]; ok && prefix == typeKey(structT.Go) {
+			return a
+		}
+	}
+	return prefix + "." + name
+}
+
+// unboxStruct reads the (immutable) payload of an interface value holding a struct.
+func (vc *VC) unboxStruct(h *Heap, x Term, t SType) StructVal {
+	sv := StructVal{T: t, F: map[string]Value{}}
+	s, _ := structOf(t.Go)
+	for i := 0; i < s.NumFields(); i++ {
+		f := s.Field(i)
+		ft := FromGo(f.Type())
+		if !ft.single() {
+			efail("boxed struct %s with composite field %s unsupported", t, f.Name())
+		}
+		loc := Loc{"box:" + typeKey(t.Go) + "." + f.Name(), []Term{x}}
+		sv.F[f.Name()] = vc.wrapSpec(vc.readLoc(h, loc, ft).(Term), ft)
+	}
+	return sv
+}
+
+func (vc *VC) wrapSpec(t Term, ty SType) Value { return t }
+
+
+func (vc *VC) implementsTerm(x Term, it SType) Term {
+	vc.tagOf(Zero)
+	name := quoteSym("impl:" + it.String())
+	vc.declareOnce("impl:"+it.String(), fmt.Sprintf("(declare-fun %s (Int) Bool)", name))
+	return And(Ne(x, Zero), app(SBool, name, vc.tagOf(x)))
+}
+
+// card is the cardinality of a finite set (uninterpreted, with the facts proofs need).
+func (vc *VC) card(s Term) Term {
+	vc.declareOnce("card", "(declare-fun card ((Array Int Bool)) Int)\n"+
+		"(assert (forall ((s! (Array Int Bool))) (! (>= (card s!) 0) :pattern ((card s!)))))\n"+
+		"(assert (= (card ((as const (Array Int Bool)) false)) 0))\n"+
+		"(assert (forall ((s! (Array Int Bool)) (x! Int)) (! (=> (select s! x!) (>= (card s!) 1)) :pattern ((card s!) (select s! x!)))))")
+	return app(SInt, "card", s)
+}
+
+// cellOf maps an interface value to the identity of the mutable object that carries its abstract
+// state (defined per implementation by axioms in the contract files).
+func (vc *VC) cellOf(x Term) Term {
+	vc.declareOnce("cellof", "(declare-fun cellof (Int) Int)")
+	return app(SInt, "cellof", x)
+}
+
+
+// inseq(a, off, n, y): y occurs among a[off .. off+n). Uninterpreted, with its definition supplied as
+// two linking facts per slice value (inseqAxioms) and the append lemma emitted by appendOp; this keeps
+// existential witnesses out of proof goals.
+func (vc *VC) inseq(a, off, n, y Term) Term {
+	vc.declareOnce("inseq", "(declare-fun inseq ((Array Int Int) Int Int Int) Bool)\n"+
+		"(assert (forall ((a! (Array Int Int)) (o! Int) (y! Int)) (! (not (inseq a! o! 0 y!)) :pattern ((inseq a! o! 0 y!)))))")
+	return app(SBool, "inseq", a, off, n, y)
+}
+
+func (vc *VC) inseqAxioms(a, off, n Term) {
+	for _, t := range []Term{a, off, n} {
+		if strings.Contains(t.S, "!") {
+			return // mentions a bound variable: no ground instance can be emitted
+		}
+	}
+	key := "inseqax:" + a.S + "|" + off.S + "|" + n.S
+	if vc.declared[key] {
+		return
+	}
+	vc.declared[key] = true
+	vc.inseq(a, off, n, Zero)
+	j := Term{"j!", SInt}
+	y := Term{"y!", SInt}
+	el := Select(a, Add(off, j))
+	vc.script.Assume(Forall([]Term{j}, Implies(And(Le(Zero, j), Lt(j, n)), vc.inseq(a, off, n, el)), []Term{el}))
+	vc.script.Assume(Forall([]Term{y}, Implies(vc.inseq(a, off, n, y), Exists([]Term{j}, And(Le(Zero, j), Lt(j, n), Eq(el, y)))), []Term{vc.inseq(a, off, n, y)}))
+	// one-step unfolding for this particular length (no recursion: the shorter prefix gets no axiom of its own)
+	last := Select(a, Add(off, Sub(n, One)))
+	vc.script.Assume(Forall([]Term{y}, Eq(vc.inseq(a, off, n, y), And(Gt(n, Zero), Or(vc.inseq(a, off, Sub(n, One), y), Eq(last, y)))), []Term{vc.inseq(a, off, n, y)}))
 }
